@@ -10,6 +10,7 @@ and checks that digest -> canonical form is injective over the whole universe.
 import hashlib
 import json
 import os
+import re
 import shutil
 
 from vlib import gen_obj, harness
@@ -19,16 +20,18 @@ LEVEL = "exploration"
 RULE = ("universe = fixed explicit pairs (1/1.0/True, 'a'/b'a', list/tuple, set/frozenset, nested-leaf variants) + seeded "
         "recursive values (depth <= 5; 6 % wide / long / deep ones: strings and bytes up to 70 000, containers up to 1025 members, ints beyond 64 bits, nesting 20, 1-3 MiB payloads repeated in one value) without aliased sub-objects and without NaN in sets; every value is rebuilt in K "
         "interpreter processes (PYTHONHASHSEED 0,1,2,random,...) x 2 insertion-order permutations each, md5 and sha1; "
+        "one of the K processes has numpy loaded (joblib.hash then goes through NumpyHasher and must give the same digests); a numpy family (300 values, 4000 in the thorough tier: dtypes, numpy scalars, C / Fortran arrays of 30 dtypes and 10 shapes with seeded content, alone and inside lists / tuples / dicts, next to explicit near-colliding pairs) is hashed with numpy loaded in every process; instances of dict / set / frozenset subclasses, Decimal leaves; "
         "a case is one value; distinct_nontrivial counts distinct canonical forms of values containing at least one "
         "dict/set/frozenset part or belonging to an explicit near-colliding pair")
 ASSUMPTIONS = [
     "canonical form (vlib/gen_obj.canon: typed, order-insensitive) defines 'same value'",
     "every occurrence of a sub-object is a fresh object (aliasing is visible to joblib.hash by design and excluded)",
     "dict keys / set members that are == but of different type (1, 1.0, True) never share a container",
+    "arrays are 'the same value' when dtype (with byte order), shape, C / Fortran order and element bytes agree (joblib.hash documents that the memory order is part of the hash)",
 ]
 SHARDS = {"quick": 10, "thorough": 14}
-FLOORS = {"quick": {"values_compared": 1800, "processes_per_value": 4, "digest_pairs_discriminated": 1200},
-          "thorough": {"values_compared": 25000, "processes_per_value": 8, "digest_pairs_discriminated": 22000}}
+FLOORS = {"quick": {"values_compared": 1800, "processes_per_value": 4, "digest_pairs_discriminated": 1200, "values_with_numpy_parts": 250, "processes_hashing_with_numpy_loaded": 25},
+          "thorough": {"values_compared": 25000, "processes_per_value": 8, "digest_pairs_discriminated": 22000, "values_with_numpy_parts": 3000, "processes_hashing_with_numpy_loaded": 100}}
 
 HASHSEEDS = ["0", "1", "2", "random", "12345", "4294967295", "random", "7"]
 
@@ -109,12 +112,87 @@ def trailing_leaf_family(tier):
     return out
 
 
+NUMPY_EXPLICIT = [
+    # dtype objects at different places of one container
+    ["T", [["t", "<f4"], ["i", "1"]]], ["T", [["i", "1"], ["t", "<f4"]]], ["L", [["t", "<f4"], ["i", "1"]]], ["L", [["i", "1"], ["t", "<f4"]]],
+    ["L", [["t", "<f4"]]], ["L", [["t", "<f4"], ["t", "<f4"]]], ["T", [["t", "<f4"], ["t", "<i4"]]], ["T", [["t", "<i4"], ["t", "<f4"]]],
+    ["D", [[["s", "a"], ["t", "<f4"]], [["s", "b"], ["i", "1"]]]], ["D", [[["s", "a"], ["i", "1"]], [["s", "b"], ["t", "<f4"]]]],
+    ["t", "<f4"], ["t", ">f4"], ["t", "<i4"], ["t", "<u4"], ["t", [["a", "<i4"], ["b", ">f8"]]], ["t", [["a", "<i4"], ["b", "<f8"]]], ["t", [["a", "<i4"]]], ["t", "<M8[s]"], ["t", "<M8[ms]"],
+    # the same structured dtype several times in one value: distinct equal objects in one build, one shared object in another
+    ["L", [["t", [["a", "<i4"], ["b", ">f8"]]], ["t", [["a", "<i4"], ["b", ">f8"]]]]], ["T", [["t", [["a", "<i4"]]], ["L", [["t", [["a", "<i4"]]]]], ["t", [["a", "<i4"]]]]],
+    ["D", [[["s", "x"], ["t", [["p", "<f8"], ["q", "S3"]]]], [["s", "y"], ["t", [["p", "<f8"], ["q", "S3"]]]]]],
+    # numpy scalars next to the Python scalars they are == to
+    ["g", "int64", "1"], ["g", "int32", "1"], ["g", "float64", "1"], ["g", "float32", "1"], ["g", "bool_", "True"], ["g", "uint8", "1"], ["g", "complex128", "1"], ["g", "str_", "1"],
+    ["L", [["g", "int64", "1"], ["i", "1"]]], ["L", [["i", "1"], ["g", "int64", "1"]]], ["T", [["g", "float64", "1"], ["f", "1.0"]]],
+    # arrays: same bytes under another dtype / shape / order, the same array twice (shared or not), arrays in dicts and sets of tuples
+    ["N", "<f8", [6], "C", 1], ["N", "<f8", [2, 3], "C", 1], ["N", "<f8", [3, 2], "C", 1], ["N", "<f8", [2, 3], "F", 1], ["N", "<i8", [6], "C", 1], ["N", ">f8", [6], "C", 1],
+    ["N", "<f8", [0], "C", 1], ["N", "<f8", [0, 3], "C", 1], ["N", "<f4", [0], "C", 1], ["N", "<f8", [], "C", 1], ["N", "<f8", [1], "C", 1], ["N", "<f8", [1, 1], "C", 1],
+    ["N", "u1", [3], "C", 2], ["N", "i1", [3], "C", 2], ["N", "bool", [3], "C", 2], ["N", "S5", [3], "C", 2], ["N", "<U3", [3], "C", 2],
+    ["L", [["N", "<f8", [6], "C", 1], ["N", "<f8", [6], "C", 2]]], ["L", [["N", "<f8", [6], "C", 2], ["N", "<f8", [6], "C", 1]]], ["L", [["N", "<f8", [6], "C", 1], ["N", "<f8", [6], "C", 1]]],
+    ["T", [["N", "<f8", [6], "C", 1], ["i", "1"]]], ["T", [["i", "1"], ["N", "<f8", [6], "C", 1]]],
+    ["D", [[["s", "x"], ["N", "<i4", [3, 4], "F", 3]], [["i", "2"], ["N", "<i4", [3, 4], "C", 3]]]], ["D", [[["s", "x"], ["N", "<i4", [3, 4], "C", 3]], [["i", "2"], ["N", "<i4", [3, 4], "F", 3]]]],
+    # identical element bytes (all zero) under other dtypes, shapes, byte orders
+    ["N", "u1", [8], "Z", 0], ["N", "i1", [8], "Z", 0], ["N", "bool", [8], "Z", 0], ["N", "S1", [8], "Z", 0], ["N", "<f8", [1], "Z", 0], ["N", "<i8", [1], "Z", 0], ["N", ">i8", [1], "Z", 0],
+    ["N", "<u8", [1], "Z", 0], ["N", "<M8[s]", [1], "Z", 0], ["N", "<m8[s]", [1], "Z", 0], ["N", "<c8", [1], "Z", 0], ["N", "S8", [1], "Z", 0], ["N", "<U2", [1], "Z", 0], ["N", "<i4", [2], "Z", 0],
+    ["N", "<i4", [2, 1], "Z", 0], ["N", "<i4", [1, 2], "Z", 0], ["N", "<i2", [2, 2], "Z", 0], ["N", "<i2", [4], "Z", 0], ["N", [["a", "<i4"], ["b", "<i4"]], [1], "Z", 0], ["N", [["a", "<i4"], ["c", "<i4"]], [1], "Z", 0],
+    ["N", [["a", "<i4"], ["b", ">f8"]], [4], "C", 5], ["N", [["a", "<i4"], ["b", "<f8"]], [4], "C", 5], ["N", "<M8[s]", [4], "C", 6], ["N", "<m8[ms]", [4], "C", 6],
+]
+
+
+def numpy_value(rng):
+    """a small container (list / tuple / dict with str or mixed keys) of numpy leaves - dtypes, scalars, C / Fortran arrays of seeded
+    content - and plain leaves"""
+    from vlib import gen_np
+
+    def leaf():
+        r = rng.random()
+        if r < 0.2:
+            return ["t", rng.choice(["<f4", ">f4", "<i8", "<u2", "S5", "<U3", "<M8[s]", [["a", "<i4"], ["b", ">f8"]], "bool"])]
+        if r < 0.35:
+            t = rng.choice(["int64", "int8", "uint16", "float64", "float32", "bool_", "complex64"])
+            return ["g", t, "True" if t == "bool_" else rng.choice(["0", "1", "2"])]
+        if r < 0.8:
+            dt = rng.choice([x for x in gen_np.DTYPES if x != "O"])
+            return ["N", dt, rng.choice(gen_np.SHAPES), rng.choice(["C", "C", "F"]), rng.randrange(6)]
+        return rng.choice(gen_obj.LEAVES)
+
+    def value(depth):
+        if depth == 0 or rng.random() < 0.3:
+            return leaf()
+        k = rng.choice(["L", "T", "D"])
+        n = rng.randint(1, 4)
+        if k == "D":
+            keys = gen_obj.distinct([rng.choice([["s", "k%d" % j], ["i", str(j)], ["T", [["i", str(j)]]]]) for j in range(n)])
+            return ["D", [[kk, value(depth - 1)] for kk in keys]]
+        return [k, [value(depth - 1) for _ in range(n)]]
+
+    return value(rng.choice([1, 2, 2, 3]))
+
+
+def digest_families():
+    """a container of unsortable members, and the container of its members' DIGESTS (what joblib's fallback pickles in their place)"""
+    try:
+        from joblib import hash as jh
+    except Exception:  # noqa
+        return []
+    out = []
+    for kind, members in (("S", [["i", "1"], ["s", "a"]]), ("F", [["i", "1"], ["s", "a"], ["n"]]), ("S", [["T", [["i", "1"]]], ["s", "x"], ["y", "61"]])):
+        out.append(([kind, members], [kind, [["s", jh(gen_obj.build(m))] for m in members]]))
+    for pairs in ([[["i", "1"], ["s", "x"]], [["s", "a"], ["s", "y"]]], [[["n"], ["i", "0"]], [["i", "2"], ["i", "1"]], [["s", "k"], ["i", "2"]]]):
+        out.append((["D", pairs], ["D", [[["s", jh(gen_obj.build(k))], v] for k, v in pairs]]))
+    return out
+
+
 def universe(tier, seed):
     n = 2000 if tier == "quick" else 30000
     out = [(i, s, True) for i, s in enumerate(EXPLICIT + trailing_leaf_family(tier))]
+    for a, b in digest_families():
+        tag = "dg:" + harness.h(a, 8)
+        out.append((len(out), a, True, tag))
+        out.append((len(out), b, True, tag))
     rng = harness.rng_for(seed, ID, "universe")
     i = len(out)
-    seen = {gen_obj.canon(s) for _, s, _ in out}
+    seen = {gen_obj.canon(u[1]) for u in out}
     while len(out) < n:
         r = rng.random()
         if r < 0.06:
@@ -137,6 +215,25 @@ def universe(tier, seed):
         seen.add(c)
         out.append((i, s, False))
         i += 1
+    # the numpy family comes last: its chunks run in processes that have numpy loaded (joblib then uses NumpyHasher for everything)
+    rng = harness.rng_for(seed, ID, "numpy-universe")
+    harness.ensure_deps("numpy")
+    for s in NUMPY_EXPLICIT:
+        out.append((len(out), s, True, "np"))
+    m = 300 if tier == "quick" else 4000
+    tries = 0
+    while m > 0 and tries < 20 * m + 1000:
+        tries += 1
+        s = numpy_value(rng)
+        try:
+            c = gen_obj.canon(s)
+        except Exception:  # noqa   (e.g. a dtype / layout combination numpy refuses)
+            continue
+        if c in seen:
+            continue
+        seen.add(c)
+        out.append((len(out), s, False, "np"))
+        m -= 1
     return out
 
 
@@ -252,12 +349,15 @@ def universe_cached(tier, seed):
 def cases(tier, seed):
     uni = universe_cached(tier, seed)
     size = 100 if tier == "quick" else 400
-    for j in range(0, len(uni), size):
-        yield dict(chunk=j // size, lo=j, hi=min(j + size, len(uni)))
+    first_np = next((k for k, u in enumerate(uni) if u[3:] == ("np",)), len(uni))
+    for j in range(0, first_np, size):
+        yield dict(chunk=j // size, lo=j, hi=min(j + size, first_np), numpy=False)
+    for j in range(first_np, len(uni), size):
+        yield dict(chunk=j // size, lo=j, hi=min(j + size, len(uni)), numpy=True)
 
 
 def nontrivial(spec):
-    return any(c in json.dumps(spec) for c in ('"D"', '"S"', '"F"'))
+    return any(c in json.dumps(spec) for c in ('"D"', '"S"', '"F"', '"t"', '"N"', '"g"'))
 
 
 def classify(spec, how):
@@ -277,18 +377,31 @@ def run_case(case, ctx):
     try:
         sf = os.path.join(d, "specs.json")
         with open(sf, "w") as f:
-            json.dump([[i, s] for i, s, _ in uni], f)
+            json.dump([[u[0], u[1]] for u in uni], f)
         results = []
+        if case.get("numpy"):
+            harness.ensure_deps("numpy")
         for k in range(K):
             of = os.path.join(d, f"out{k}.json")
-            r = harness.run_py([os.path.join(harness.VERIF, "checks", "c08_child.py"), sf, of, str(k)],
-                               timeout=300, hashseed=HASHSEEDS[k], result_file=of)
+            # values without numpy parts: the last process has numpy loaded (NumpyHasher instead of Hasher must give the same digests);
+            # values with numpy parts: every process has
+            with_np = bool(case.get("numpy")) or k == K - 1
+            r = harness.run_py([os.path.join(harness.VERIF, "checks", "c08_child.py"), sf, of, str(k), "numpy" if with_np else "plain"],
+                               timeout=300, hashseed=HASHSEEDS[k], result_file=of, env_extra={"VERIF_USE_DEPS": "1"} if with_np else None)
+            if with_np and r["result"] and not r["result"].get("numpy_loaded"):
+                ctx.inconclusive("numpy-not-loaded-in-child", (r["err"] or "")[-300:])
+                return
+            if with_np:
+                ctx.count("processes_hashing_with_numpy_loaded")
             if not r["result"] or not r["result"]["joblib"].startswith(os.path.realpath(harness.REPO)):
                 ctx.inconclusive("child-failed", (r["err"] or r["out"])[-500:])
                 return
             results.append({row["idx"]: row for row in r["result"]["rows"]})
-        for idx, spec, explicit in uni:
+        for u in uni:
+            idx, spec, explicit, tag = u[0], u[1], u[2], (u[3] if len(u) > 3 else "")
             ctx.evaluated()
+            if tag == "np":
+                ctx.count("values_with_numpy_parts")
             rows = [res[idx] for res in results]
             can = gen_obj.canon(spec)
             if any("err" in r for r in rows):
@@ -328,11 +441,20 @@ def run_case(case, ctx):
                               dict(spec=spec, digests=[[r["md5"], r["md5_b"]] for r in rows], hashseeds=HASHSEEDS[:K]))
                 continue
             ch = hashlib.sha1(can.encode()).hexdigest()[:16]
-            ctx.kv("md5", rows[0]["md5"], ch + "|" + can[:120])
-            ctx.kv("sha1", rows[0]["sha1"], ch + "|" + can[:120])
+            mark = ""
+            if tag.startswith("dg:"):
+                mark = "|" + tag
+            elif '"t"' in json.dumps(spec):
+                # what is left of the value when its dtype leaves are taken out (see finalize)
+                rest = re.sub(r"t\((\[.*?\]|[^()\[\]]*)(\|[^)]*)?\)", "", can)
+                rest = re.sub(r",+", ",", rest)
+                rest = re.sub(r",(?=[\]}])|(?<=[\[{]),", "", rest)
+                mark = "|dt:" + hashlib.sha1(rest.encode()).hexdigest()[:12]
+            ctx.kv("md5", rows[0]["md5"], ch + "|" + can[:120] + mark)
+            ctx.kv("sha1", rows[0]["sha1"], ch + "|" + can[:120] + mark)
             ctx.kv("canon", ch, rows[0]["md5"])
         if case["chunk"] == 0:
-            for idx, spec, _ in uni[:3] + uni[-2:]:
+            for idx, spec in [(u[0], u[1]) for u in uni[:3] + uni[-2:]]:
                 ctx.sample(dict(value=gen_obj.canon(spec)[:200], md5_per_process=[res[idx].get("md5") for res in results]))
     finally:
         shutil.rmtree(d, ignore_errors=True)
@@ -344,7 +466,13 @@ def finalize(m, ctx):
     for alg in ("md5", "sha1"):
         for digest, canons in m["maps"].get(alg, {}).items():
             if len(canons) > 1:
-                ctx.violation("collision", f"{alg} digest {digest} shared by distinct values: {[c.split('|', 1)[1] for c in canons[:3]]}",
+                marks = {c.rsplit("|", 1)[1] if c.count("|") >= 2 else "" for c in canons}
+                key = "collision"
+                if len(marks) == 1 and next(iter(marks)).startswith("dg:"):
+                    key = "collision:members-replaced-by-their-digests"
+                elif len(marks) == 1 and next(iter(marks)).startswith("dt:"):
+                    key = "collision:numpy-dtype-position"
+                ctx.violation(key, f"{alg} digest {digest} shared by distinct values: {[c.split('|')[1] for c in canons[:3]]}",
                               dict(digest=digest, values=canons))
     ncanon = 0
     for ch, digests in m["maps"].get("canon", {}).items():
